@@ -46,7 +46,11 @@ def specials() -> List[tuple]:
            ("TXT", x, IN, 4500, b""), ("TXT", x, IN, 4500, b"\xff" * 255), ("TXT", x, IN, 4500, b"\x00" * 256),
            ("HINFO", h, IN, 120, "", ""), ("HINFO", h, FL, 120, "c" * 255, "o"), ("HINFO", h, IN, 120, "çpü", "ö" * 127),
            ("NSEC", h, FL, 120, h, (1,)), ("NSEC", h, FL, 120, h, (255,)), ("NSEC", h, FL, 120, h, tuple(range(1, 256, 7))),
-           ("SRV", x, IN, 120, 65535, 65535, 65535, h), ("SRV", x, FL, 120, 1, 2, 3, x)]
+           ("SRV", x, IN, 120, 65535, 65535, 65535, h), ("SRV", x, FL, 120, 1, 2, 3, x),
+           # rdata names that cannot be compressed against anything earlier: they end in an explicit root octet, which is
+           # the very last octet of the datagram when the record comes last
+           ("PTR", "4.3.2.1.in-addr.arpa.", IN, 120, "host.example."), ("SRV", x, FL, 120, 0, 0, 80, "target.example."),
+           ("CNAME", h, IN, 120, "alias.example."), ("NSEC", h, FL, 120, "next.example.", (1,))]
     for ttl in (0, 1, 119, 4500, 2 ** 31, 2 ** 32 - 1):
         out.append(("A", h, IN, ttl, IP4))
         out.append(("PTR", "_a._tcp.local.", FL, ttl, x))
